@@ -9,6 +9,7 @@ import Orda.Proofs.Protocol
 import Orda.Proofs.ProtocolJoin
 import Orda.Proofs.DocNet
 import Orda.Proofs.ServerRefine
+import Orda.Proofs.ServerRefineJoin
 namespace Orda.Props.C05
 open Orda
 
@@ -124,5 +125,32 @@ theorem stored_log_exactly_once {tg : Target} {cuids : List String} {T0 T : SSys
       log.filter (fun o => o.id.cuid = cl.cuid) = cl.buf.take (absRec T.st tg.duid cl.cuid).cseq ∧
       cl.applied = (log.take cl.cp.sseq).filter (fun o => o.id.cuid ≠ cl.cuid) :=
   store_log_exactly_once g0 h0 run
+
+open Orda.SRef Orda.SRefJ in
+/-- THE REFINEMENT, ENTRY PHASE INCLUDED: runs of the store-level server in which clients CREATE the datatype (first request on the
+    key, create or subscribe-or-create pack), SUBSCRIBE to it late under their own random datatype id (answered under the stored id),
+    re-send their create pack, and push/pull — starting from a store in which neither the id nor the key exists — are `JReach` runs of
+    the protocol with late joiners -/
+theorem store_runs_from_scratch_are_protocol_runs {tg : TargetJ} {cs : List (String × Bool)} {st0 : Store} {T : SSysJ}
+    (hnd : (cs.map (·.1)).Nodup) (inv : LogInv st0) (ku : KeyUnique st0)
+    (hid : st0.getDatatype tg.duid = none) (hkey : st0.getDatatypeByKey tg.col.num tg.key = none)
+    (run : SRunJ tg (SSysJ.init st0 cs) T) : GoodJ tg T ∧ JReach cs (T.abs tg) :=
+  store_run_from_scratch hnd inv ku hid hkey run
+
+open Orda.SRef Orda.SRefJ in
+/-- transferred to the store, late joiners included: the stored log is exactly what joined clients issued and were acknowledged for,
+    each operation once, per client in issue order; a client that has not joined has nothing stored; every client has applied exactly
+    the others' operations up to its checkpoint, in log order -/
+theorem stored_log_exactly_once_with_late_joiners {tg : TargetJ} {cuids : List (String × Bool)} {T0 T : SSysJ}
+    (g0 : GoodJ tg T0) (h0 : JReach cuids (T0.abs tg)) (run : SRunJ tg T0 T) :
+    let log := (T.st.opsOf tg.duid).map (·.op)
+    (T.st.getOperations tg.duid 1).map (·.op) = log ∧
+    (∀ o, o ∈ log ↔ ∃ cl ∈ T.clients, cl.joined = true ∧
+      o ∈ cl.base.buf.take (absRec T.st tg.duid cl.base.cuid).cseq) ∧
+    (log.map (fun o => (o.id.cuid, o.id.seq))).Nodup ∧
+    (∀ cl ∈ T.clients, log.filter (fun o => o.id.cuid = cl.base.cuid) =
+      if cl.joined then cl.base.buf.take (absRec T.st tg.duid cl.base.cuid).cseq else []) ∧
+    (∀ cl ∈ T.clients, cl.base.applied = (log.take cl.base.cp.sseq).filter (fun o => o.id.cuid ≠ cl.base.cuid)) :=
+  store_log_with_late_joiners g0 h0 run
 
 end Orda.Props.C05
